@@ -265,7 +265,34 @@ RULES = {"FINITE-ARITH": finite_arith, "SIGMA-INVARIANCE": sigma_invariance, "SI
 # SUBTREE-BOX: sibling boxes are disjoint, inside their parent, below its trunk (symbolic lemma)
 
 
+class _NeedDecision(Exception):
+    def __init__(self, key: str, test: ast.AST):
+        self.key = key
+        self.test = test
+
+
 def subtree_box(prog: Program) -> RuleResult:
+    """the lemma under every combination of the tests of the ancestral branch that are not orientation switches
+    (`if keep_apart: spacing = max(spacing, minimum)`): each combination is a case of its own"""
+    cases: List[dict] = [{}]
+    done: List[RuleResult] = []
+    while cases:
+        decisions = cases.pop()
+        try:
+            done.append(_subtree_box_case(prog, decisions))
+        except _NeedDecision as need:
+            if len(decisions) >= 4:
+                raise AnalysisError(f"SUBTREE-BOX: too many case distinctions in the ancestral branch (`{short(need.test)}`)")
+            cases.append({**decisions, need.key: (True, need.test)})
+            cases.append({**decisions, need.key: (False, need.test)})
+    res = done[0]
+    for other in done[1:]:
+        res.obligations.extend(other.obligations)
+        res.findings.extend(other.findings)
+    return res
+
+
+def _subtree_box_case(prog: Program, decisions: dict) -> RuleResult:
     import re
     from fractions import Fraction
 
@@ -471,7 +498,11 @@ def subtree_box(prog: Program) -> RuleResult:
             if isinstance(st, ast.If):
                 kind = is_orientation_test(st.test)
                 if kind is None:
-                    raise AnalysisError(f"SUBTREE-BOX: test `{short(st.test)}` in the ancestral branch is not an orientation switch")
+                    key_ = ast.dump(st.test)
+                    if key_ not in decisions:
+                        raise _NeedDecision(key_, st.test)
+                    run(st.body if decisions[key_][0] else st.orelse)
+                    continue
                 run(st.body if kind == "VERTICAL" else st.orelse)
                 continue
             if isinstance(st, ast.Assign) and len(st.targets) == 1:
@@ -527,7 +558,8 @@ def subtree_box(prog: Program) -> RuleResult:
 
     def decide(label: str, alternatives, node):
         """alternatives: list of polys, the obligation holds when one of them is >= 0 for all non-negative unknowns."""
-        construct = f"{modname}:_layout_subtrees/box/{label}"
+        case = "".join(f"[{'' if val else 'not '}{short(test, 30)}]" for val, test in decisions.values())
+        construct = f"{modname}:_layout_subtrees/box/{label}{case}"
         if any(ctx.prove_nonneg(p) for p in alternatives):
             res.ok(construct, "proved for all non-negative sizes and spacings")
             return
